@@ -142,6 +142,8 @@ func (a *TermsCalculator) Finish() {
 
 	var notOther int
 	for _, bucket := range a.bucketsList {
+		// finish the aggregations nested in this bucket as well
+		bucket.Finish()
 		notOther += int(bucket.Aggregations()["count"].(search.MetricCalculator).Value())
 	}
 	a.other = a.total - notOther
